@@ -767,7 +767,7 @@ func (g *gen) locCase() {
 }
 
 // ---------- pinned witnesses (run first on every run): findings 1-13 are repaired in /repo and are
-// regression cases that expect the ES5 result; 14 and 15 are open ----------
+// regression cases that expect the ES5 result; 14 and 15 too since 0a77c0d / 33e9d82 ----------
 
 func nums(xs ...float64) []*V {
 	a := make([]*V, len(xs))
@@ -898,9 +898,9 @@ func (g *gen) pinned() {
 	g.runHist(arr(nums(1, 2)), []Op{{kind: 'c', m: 18, args: []Arg{av(vStr("-"))}}}, "pinned")
 	// 13 (fixed c7552c5) reverse Gets both values before the presence tests: a getter that truncates the receiver
 	g.runHist(Recv{arr: true, elems: []*V{vp(vNum(3)), vp(vStr("x"))}, getters: map[int]Getter{1: {id: 32, p: 8, fx: 4}}}, []Op{{kind: 'c', m: 3}}, "pinned")
-	// 14 (open) lastIndexOf converts fromIndex before the empty-receiver exit
+	// 14 (fixed 0a77c0d) lastIndexOf leaves fromIndex alone on an empty receiver
 	g.runHist(arr(nil), []Op{{kind: 'c', m: 9, args: []Arg{av(vNum(1)), {kind: 'o', oid: 1, op: 0, othrow: true}}}}, "pinned")
-	// 15 (open) join converts the separator before it reads length
+	// 15 (fixed 33e9d82) join reads length before it converts the separator
 	g.runHist(Recv{elems: nums(7), length: vp(vNum(1)), lenGet: true}, []Op{{kind: 'c', m: 0, args: []Arg{{kind: 'o', oid: 1, op: 1}}}}, "pinned")
 	// 12 (fixed fcc8076) the callback methods read length before the IsCallable test: all seven, every run
 	for m := 10; m <= 16; m++ {
